@@ -5,12 +5,12 @@
   One output line per input line. Unknown ops print `bad-op`. The world
   engine is stateful (`cfg` starts a new world).
 -/
-import Drive.WorldOps
+import Drive.Monitor
 open Rsp
 
 def worldOps : List String := ["cfg", "client", "rq", "reply", "writer", "tick", "reset", "srvstate", "pop", "rmclient", "radput"]
 
-partial def loop (h : IO.FS.Stream) (out : IO.FS.Stream) (st : Option Rsp.World.World) : IO Unit := do
+partial def loop (h : IO.FS.Stream) (out : IO.FS.Stream) (st : Option Rsp.World.World) (mon : Drive.Mon := {}) : IO Unit := do
   let line ← h.getLine
   if line.isEmpty then return ()
   let toks := (line.trimAscii.toString.splitOn " ").filter (· ≠ "")
@@ -21,18 +21,23 @@ partial def loop (h : IO.FS.Stream) (out : IO.FS.Stream) (st : Option Rsp.World.
     if worldOps.contains op then
       let (st', res) := Drive.worldOp st op args tr
       out.putStrLn res
-      loop h out st'
+      loop h out st' mon
     else
       out.putStrLn (Drive.model op args)
-      loop h out st
+      loop h out st mon
   | "S" :: op :: rest =>
     let (lhs, impl) := Drive.splitArrow rest
     let args := lhs.takeWhile (· ≠ "##")
-    out.putStrLn (Drive.spec op args impl)
-    loop h out st
+    if worldOps.contains op then
+      let (mon', v) := Drive.monOp mon op args impl
+      out.putStrLn v
+      loop h out st mon'
+    else
+      out.putStrLn (Drive.spec op args impl)
+      loop h out st mon
   | _ =>
     out.putStrLn "bad-op"
-    loop h out st
+    loop h out st mon
 
 def main : IO Unit := do
   let stdin ← IO.getStdin
